@@ -69,13 +69,15 @@ Definition bump (r : record) : record := set_ver r (r_ver r + 1).
 Inductive topic :=
 | TStatus (s : Z)
 | TDelete
-| TRunStateChange.
+| TRunStateChange
+| TConn (cid : N).                  (* not a workflow topic: the event source of connector [cid] (connector.go) *)
 
 Definition topic_eqb (a b : topic) : bool :=
   match a, b with
   | TStatus x, TStatus y => Z.eqb x y
   | TDelete, TDelete => true
   | TRunStateChange, TRunStateChange => true
+  | TConn a, TConn b => N.eqb a b
   | _, _ => false
   end.
 
